@@ -2,10 +2,15 @@
 Executable model of the DTLCP stateless cookie exchange (C18), core Lean only.
 
 Mirrors, branch by branch:
-  * `clientHelloMsg.marshalForCookie`  (dtlcp/handshake_server.go) — the byte layout is
-    *interpreted from the regenerated fact* `Facts.dtlcp.cookieParamsLayout`;
-  * `generateCookie` (dtlcp/cookie.go) — what is written into the HMAC, interpreted from
-    `Facts.dtlcp.cookieWrites` (so the model follows the tree before and after the F15 repair);
+  * `clientHelloMsg.marshalForCookie`  (dtlcp/handshake_server.go) — the byte layout is the literal
+    definition `marshalForCookie` below.  It is NOT read from text-matching facts:
+    `Gotlcp.Tie.Cookie.tie_marshalForCookie` proves, for all hellos, that the function TRANSLATED from
+    the Go source on every run produces exactly these bytes, so a semantic change of the Go function
+    breaks that proof while a renaming or an equivalent re-arrangement does not;
+  * `generateCookie` (dtlcp/cookie.go) — what is written into the HMAC is the literal definition
+    `cookieInputFramed` (tied by `tie_generateCookie` / `tie_cookieInput`: HMAC-SM3 under the secret
+    over 16-bit address length ‖ address ‖ parameters); `cookieInputPlain` is the input of the tree
+    before the F15 repair, kept for the witness of that finding;
   * `verifyCookie` — recompute and compare; the MAC itself is an opaque function of
     (key, input) and is never computed here;
   * the fixed-size framing of ClientHello / HelloVerifyRequest datagrams (13-byte record
@@ -47,49 +52,21 @@ def Hello.wf (h : Hello) : Bool :=
 
 /-! ### marshalForCookie -/
 
-/-- bytes appended by one statement of `marshalForCookie` (token syntax of the extractor) -/
-def layoutBytes (h : Hello) : String → Bytes
-  | "u16:vers" => u16 h.vers
-  | "bytes:random" => h.random
-  | "len8:sessionId" => [b8 h.sessionId.length]
-  | "bytes:sessionId" => h.sessionId
-  | "len16:cipherSuites" => u16 h.suites.length
-  | "each16:cipherSuites" => h.suites.flatMap u16
-  | "len8:compressionMethods" => [b8 h.compression.length]
-  | "bytes:compressionMethods" => h.compression
-  | _ => []
-
-def marshalWith (layout : List String) (h : Hello) : Bytes := layout.flatMap (layoutBytes h)
-
-/-- the layout of the documented encoding (version, random, length-prefixed session id,
-count-prefixed suites, length-prefixed compression methods) -/
-def stdLayout : List String :=
-  ["u16:vers", "bytes:random", "len8:sessionId", "bytes:sessionId", "len16:cipherSuites",
-   "each16:cipherSuites", "len8:compressionMethods", "bytes:compressionMethods"]
-
-/-- `marshalForCookie` as written in the source today -/
+/-- `marshalForCookie` as written in the source today: version, random, length-prefixed session id,
+count-prefixed suites, length-prefixed compression methods (tied to the translated Go text by
+`Gotlcp.Tie.Cookie.tie_marshalForCookie`) -/
 def marshalForCookie (h : Hello) : Bytes :=
   u16 h.vers ++ (h.random ++ ([b8 h.sessionId.length] ++ (h.sessionId ++ (u16 h.suites.length ++
     (h.suites.flatMap u16 ++ ([b8 h.compression.length] ++ h.compression))))))
 
 /-! ### generateCookie / verifyCookie -/
 
-/-- bytes fed to the MAC by one `h.Write` of `generateCookie` -/
-def writeBytes (addr params : Bytes) : String → Bytes
-  | "addr" => addr
-  | "params" => params
-  | "len16:addr" => u16 addr.length
-  | "len16:params" => u16 params.length
-  | _ => []
-
-/-- the MAC input of `generateCookie(secret, addr, params)` -/
-def cookieInputWith (writes : List String) (addr params : Bytes) : Bytes :=
-  writes.flatMap (writeBytes addr params)
-
 /-- the unrepaired input: address bytes immediately followed by the parameters -/
 def cookieInputPlain (addr params : Bytes) : Bytes := addr ++ params
 
-/-- the repaired input: 16-bit address length, address, parameters -/
+/-- the MAC input of `generateCookie(secret, addr, params)` in the source today (the repaired
+input): 16-bit address length, address, parameters (tied to the translated Go text by
+`Gotlcp.Tie.Cookie.tie_generateCookie` and `tie_cookieInput`) -/
 def cookieInputFramed (addr params : Bytes) : Bytes := u16 addr.length ++ (addr ++ params)
 
 /-- HMAC keys are zero-padded to the block size: secrets that differ only in trailing zero
